@@ -51,3 +51,93 @@ theorem magicOf_length {net : String} {m : Bytes} (h : magicOf net = some m) : m
   all_goals (first | (cases h; rfl) | cases h)
 
 end Buidl.Wire
+
+namespace Buidl.Wire
+open Buidl
+
+/-- parsing a header consumes exactly 80 bytes -/
+theorem Header.parse_append (b r : Bytes) (hb : b.length = 80) :
+    Header.parse (b ++ r) = ((Header.parse b).1, r) := by
+  have t : ∀ n, n ≤ 80 → (b ++ r).take n = b.take n := by
+    intro n hn; rw [List.take_append_of_le_length (by omega)]
+  have d : ∀ n, n ≤ 80 → (b ++ r).drop n = b.drop n ++ r := by
+    intro n hn; rw [List.drop_append_of_le_length (by omega)]
+  simp only [Header.parse, List.drop_drop, List.take_drop]
+  simp only [t 4 (by omega), t (4 + 32) (by omega), t (4 + 32 + 32) (by omega), t (4 + 32 + 32 + 4) (by omega),
+    t (4 + 32 + 32 + 4 + 4) (by omega), t (4 + 32 + 32 + 4 + 4 + 4) (by omega), d (4 + 32 + 32 + 4 + 4 + 4) (by omega)]
+  have : b.drop (4 + 32 + 32 + 4 + 4 + 4) = [] := by
+    apply List.drop_eq_nil_of_le; omega
+  rw [this]; rfl
+
+theorem readN32_flatten (hs : List Bytes) (rest : Bytes) (h : ∀ x ∈ hs, x.length = 32) :
+    readN32 hs.length (hs.flatten ++ rest) = (hs, rest) := by
+  induction hs with
+  | nil => rfl
+  | cons x xs ih =>
+    have hx : x.length = 32 := h x (by simp)
+    have hxs : ∀ y ∈ xs, y.length = 32 := fun y hy => h y (by simp [hy])
+    simp only [List.length_cons, List.flatten_cons, List.append_assoc, readN32,
+      take_append_len _ _ 32 hx, drop_append_len _ _ 32 hx, ih hxs]
+
+theorem readN32rev_flatten (hs : List Bytes) (rest : Bytes) (h : ∀ x ∈ hs, x.length = 32) :
+    readN32rev hs.length ((hs.map List.reverse).flatten ++ rest) = (hs, rest) := by
+  induction hs with
+  | nil => rfl
+  | cons x xs ih =>
+    have hx : x.reverse.length = 32 := by simp [h x (by simp)]
+    have hxs : ∀ y ∈ xs, y.length = 32 := fun y hy => h y (by simp [hy])
+    simp only [List.length_cons, List.map_cons, List.flatten_cons, List.append_assoc, readN32rev,
+      take_append_len _ _ 32 hx, drop_append_len _ _ 32 hx, ih hxs, List.reverse_reverse]
+
+theorem headersParseLoop_encode (raw : List Bytes) (rest : Bytes) (h : ∀ x ∈ raw, x.length = 80) :
+    headersParseLoop raw.length ((raw.map (· ++ [0])).flatten ++ rest)
+      = some (raw.map (fun b => (Header.parse b).1), rest) := by
+  induction raw with
+  | nil => rfl
+  | cons x xs ih =>
+    have hx : x.length = 80 := h x (by simp)
+    have hxs : ∀ y ∈ xs, y.length = 80 := fun y hy => h y (by simp [hy])
+    simp only [List.length_cons, List.map_cons, List.flatten_cons, List.append_assoc, headersParseLoop,
+      Header.parse_append _ _ hx]
+    have : readVarint ([0] ++ ((xs.map (· ++ [0])).flatten ++ rest)) = some (0, (xs.map (· ++ [0])).flatten ++ rest) :=
+      readVarint_encodeVarint 0 _ [0] (by decide)
+    simp only [this, Option.pure_def, Option.bind_eq_bind, Option.bind_some, ne_eq, not_true_eq_false, if_false,
+      ih hxs]
+
+end Buidl.Wire
+
+namespace Buidl.Wire
+open Buidl
+
+/-- the body GetDataMessage.serialize appends after the count -/
+def invBody : List (Nat × Bytes) → Bytes
+  | [] => []
+  | (t, i) :: r => natToLE' 4 t ++ i.reverse ++ invBody r
+
+theorem getData_foldlM (items : List (Nat × Bytes)) (acc : Bytes) (h : ∀ it ∈ items, it.1 < 2 ^ 32) :
+    items.foldlM (fun acc (it : Nat × Bytes) =>
+      (natToLE it.1 4).bind fun t => some (acc ++ t ++ it.2.reverse)) acc = some (acc ++ invBody items) := by
+  induction items generalizing acc with
+  | nil => simp [invBody]
+  | cons x xs ih =>
+    have hx : x.1 < 256 ^ 4 := by have := h x (by simp); omega
+    have hxs : ∀ it ∈ xs, it.1 < 2 ^ 32 := fun it hit => h it (by simp [hit])
+    obtain ⟨t, i⟩ := x
+    simp only [List.foldlM_cons, natToLE_some hx, Option.bind_eq_bind, Option.bind_some]
+    rw [ih _ hxs]
+    simp [invBody, List.append_assoc]
+
+theorem getDataSerialize_eq (items : List (Nat × Bytes)) (e : Bytes) (h : ∀ it ∈ items, it.1 < 2 ^ 32)
+    (he : getDataSerialize items = some e) :
+    ∃ v, encodeVarint items.length = some v ∧ e = v ++ invBody items := by
+  simp only [getDataSerialize, Option.pure_def, Option.bind_eq_bind] at he
+  cases hv : encodeVarint items.length with
+  | none => rw [hv] at he; cases he
+  | some v =>
+    rw [hv] at he
+    simp only [Option.bind_some] at he
+    rw [getData_foldlM items [] h] at he
+    simp only [Option.bind_some, List.nil_append, Option.some.injEq] at he
+    exact ⟨v, rfl, he.symm⟩
+
+end Buidl.Wire
